@@ -11,7 +11,9 @@ All     == 0..(M - 1)
 McSqn   == {0, 1, 127, 128, 254, 255}
 McOvf   == {0, 1, 255, 256, 32767, 32768, 65534, 65535}
 McSet   == {<<0, 0>>, <<0, 255>>, <<1, 0>>, <<255, 255>>, <<256, 1>>, <<32767, 255>>, <<32768, 0>>, <<65535, 254>>, <<65535, 255>>}
-McSetFull == {<<0, 0>>, <<255, 1>>, <<32768, 128>>, <<65535, 255>>}
+FullSqn == {0, 128, 255}
+FullOvf == {0, 32768, 65535}
+FullSet == {<<0, 0>>, <<65535, 255>>}
 FromWindow == c \in Window
 \* 256 increments = one step of the overflow part, same sequence number (window model only)
 Lap == LET y == Iter(c, 256) IN SqnOf(y) = SqnOf(c) /\ OvfOf(y) = (OvfOf(c) + 1) % 65536
